@@ -286,15 +286,16 @@ def fold(t):
 # --------------------------------------------------------------------------------------
 
 def enumerate_paths(body, start=0, stop_at=(), max_visits=2, limit=50000, prune=True,
-                    avoid=(), stop_before_entering=()):
+                    avoid=(), stop_second=()):
     """Enumerate paths from `start` along normal edges.
 
     A path ends at: a return ('return'); a block in stop_at, which is included as last block
-    ('stop'); a block whose visit count would exceed max_visits ('cut'; the block is not
+    ('stop'); the second visit of a block in stop_second (included, 'stop'); a block whose visit count would exceed max_visits ('cut'; the block is not
     appended); a diverging call / unreachable ('diverge').  Branches on values that fold to a
     constant along the path so far are pruned when prune=True.
     """
     stop_at = set(stop_at)
+    stop_second = set(stop_second)
     avoid = set(avoid)
     out = []
     blocks = [start]
@@ -307,6 +308,9 @@ def enumerate_paths(body, start=0, stop_at=(), max_visits=2, limit=50000, prune=
         t = body.blocks[b]["term"]
         k = t["k"]
         if len(blocks) > 1 and b in stop_at:
+            out.append(Path(body, list(blocks), "stop"))
+            return
+        if b in stop_second and counts.get(b, 0) >= 2:
             out.append(Path(body, list(blocks), "stop"))
             return
         if k == "return":
